@@ -182,6 +182,27 @@ func ruleR35(c *Ctx) {
 			case *ast.RangeStmt:
 				if _, isFunc := info.TypeOf(x.X).Underlying().(*types.Signature); isFunc {
 					out[resolve(u, x.X, bind, bindU)] = true
+					// the sequence must be built when the pass starts, not when TopK was called:
+					// All()/Backward() bind the root reference of the moment they are called
+					var encl *ast.FuncLit // the innermost function literal holding the loop
+					ast.Inspect(u.Body, func(z ast.Node) bool {
+						if lit, ok := z.(*ast.FuncLit); ok && lit.Pos() <= x.Pos() && x.End() <= lit.End() {
+							encl = lit
+						}
+						return true
+					})
+					if encl == nil {
+						encl = u.Lit
+					}
+					if id, ok := ast.Unparen(x.X).(*ast.Ident); ok && encl != nil {
+						if v, _ := info.ObjectOf(id).(*types.Var); v != nil && (v.Pos() < encl.Pos() || v.Pos() > encl.End()) {
+							if d := m.resolveLocal(u, id); d != nil {
+								if _, isCall := ast.Unparen(d).(*ast.CallExpr); isCall {
+									out["hoisted:"+v.Name()+"@"+m.pos(d.Pos())] = true
+								}
+							}
+						}
+					}
 				}
 			case *ast.CallExpr:
 				// seq()(callback): the sequence is run directly instead of ranged over
@@ -235,6 +256,16 @@ func ruleR35(c *Ctx) {
 			srcs := map[string]bool{}
 			sourcesOf(u, nil, nil, 0, srcs)
 			key := fmt.Sprintf("%s.%s takes the first k of %s()", tk.Name, meth, want)
+			hoisted := ""
+			for k := range srcs {
+				if strings.HasPrefix(k, "hoisted:") {
+					hoisted = strings.TrimPrefix(k, "hoisted:")
+					delete(srcs, k)
+				}
+			}
+			if hoisted != "" {
+				c.r.bad("R35", fmt.Sprintf("%s.%s builds its sequence when it is ranged over", tk.Name, meth), m.pos(u.Decl.Pos()), fmt.Sprintf("the sequence ranged over is %s, built outside the returned closure: %s() copies the root reference when it is called, so a %s sequence kept across an Insert or Delete that replaces the root walks the tree of that moment (after a grow or shrink: a node that went back to the pool)", hoisted, want, meth), "C05", "C14")
+			}
 			switch {
 			case len(srcs) == 1 && srcs[want]:
 				c.r.ok("R35", key, m.pos(u.Decl.Pos()), "the only sequence ranged over, directly or in the helper it calls, is "+want+"()", "C05")
@@ -320,6 +351,36 @@ func ruleR35(c *Ctx) {
 				if hc == nil {
 					if lv := identVar(info, arg); lv != nil {
 						hc = c.defCallOf(frame, lv)
+					}
+				}
+				// descend(t.root) with descend a function parameter bound to minimum / maximum at the
+				// delegating call (outermost(minimum[V]))
+				if hc != nil && len(hc.Args) == 1 {
+					if pv := identVar(info, hc.Fun); pv != nil {
+						if bound, ok := env[pv]; ok {
+							be := ast.Unparen(bound)
+							for {
+								if ix, isIx := be.(*ast.IndexExpr); isIx {
+									be = ast.Unparen(ix.X)
+									continue
+								}
+								if ix, isIx := be.(*ast.IndexListExpr); isIx {
+									be = ast.Unparen(ix.X)
+									continue
+								}
+								break
+							}
+							var obj types.Object
+							switch x := be.(type) {
+							case *ast.Ident:
+								obj = info.Uses[x]
+							case *ast.SelectorExpr:
+								obj = info.Uses[x.Sel]
+							}
+							if f, isF := obj.(*types.Func); isF && unitBase(f.Name()) == helper && c.isTreeRoot(hc.Args[0]) {
+								return
+							}
+						}
 					}
 				}
 				if hc == nil {
@@ -440,7 +501,7 @@ func ruleR35(c *Ctx) {
 				return true
 			})
 			key := fmt.Sprintf("%s.%s calls %s", tk.Name, meth, helper)
-			if called == helper {
+			if unitBase(called) == helper {
 				c.r.ok("R35", key, m.pos(u.Decl.Pos()), "like-named helper", "C02")
 			} else {
 				c.r.bad("R35", key, m.pos(u.Decl.Pos()), fmt.Sprintf("%s calls %s instead of %s", meth, called, helper), "C02")
